@@ -539,3 +539,37 @@ def sm8(P, C):
         okv = L is not None and bool(sizes)
     C.ob("SM-8", "estimateMemory", "knot-count-read-in-the-same-iteration", okv, ef.loc(kn[0][0]) if kn else ef.where(),
          "each KNOTS<i> move is followed in the same loop iteration by the fits_get_img_size that counts its knots")
+
+
+def fs14(P, C):
+    """FS-14: the reader finds its extensions by name."""
+    from . import fs as _fs
+    C.rule("FS-14", "read_fits_core locates every extension it reads (KNOTS<i> with the loop variable, EXTENTS) by fits_movnam_hdu with its name and "
+           "the IMAGE_HDU type, and moves by position only to the primary HDU: the documented layout names the extensions, it does not order "
+           "them, so a file of an independent writer that appends EXTENTS first, or the knot vectors in another sequence, is the same table. "
+           "A reader that goes by position refuses such a file or — with equally shaped dimensions — exchanges the knot vectors silently", floor=3)
+    rf = P.one("read_fits_core", unit="driver")
+    calls, fmts = _fs.cfits_calls(rf)
+    moves, bypos = [], []
+    for (i, nm, macro) in calls:
+        a = rf.args(i)
+        if nm == "ffmnhd":
+            moves.append((i, str(_fs.name_of(rf, a[2], fmts)), rf.nodes[rf.strip(a[1])].get("cv")))
+        elif nm == "ffmahd":
+            if rf.nodes[rf.strip(a[1])].get("cv") != 1:
+                bypos.append((i, rf.render(a[1])))
+        elif nm == "ffmrhd":
+            bypos.append((i, "relative " + rf.render(a[1])))
+    C.ob("FS-14", "read_fits_core", "no-move-by-position", not bypos, rf.loc(bypos[0][0]) if bypos else rf.where(),
+         "the only move by position is to the primary HDU" if not bypos else
+         "fits_mov(abs|rel)_hdu to HDU %s: the layout names the extensions, a file may hold them in any sequence" % bypos[0][1])
+    kn = [m for m in moves if "KNOTS" in m[1]]
+    ex = [m for m in moves if "EXTENTS" in m[1]]
+    okk = len(kn) == 1 and kn[0][2] == 0
+    L = next((x for x in rf.ancestors(kn[0][0]) if rf.k(x) == "ForStmt"), None) if kn else None
+    reads = [j for (j, nm, _m) in calls if nm in ("ffgpxv", "ffgpxvll") and L is not None and L in set(rf.ancestors(j))]
+    C.ob("FS-14", "read_fits_core", "knots-by-name", okk and L is not None and bool(reads), rf.loc(kn[0][0]) if kn else rf.where(),
+         "each knot vector is read after a move by name to %s (IMAGE_HDU) in the same iteration" % (kn[0][1] if kn else "?") if okk and reads else
+         "the knot vectors are not located by a move by name to KNOTS<i> in the iteration that reads them (moves by name: %s)" % [m[1] for m in moves])
+    C.ob("FS-14", "read_fits_core", "extents-by-name", len(ex) == 1 and ex[0][2] == 0, rf.loc(ex[0][0]) if ex else rf.where(),
+         "the extents are located by a move by name to EXTENTS (IMAGE_HDU)" if ex else "no move by name to EXTENTS")
